@@ -52,7 +52,7 @@ fn expect_reads(n: usize, evs: &[String]) -> (Vec<String>, Vec<u8>) {
     for e in evs {
         match e.as_str() {
             "i" => flat.push(E::I),
-            "e" => flat.push(E::Err),
+            "e" | "t" => flat.push(E::Err),
             "z" => flat.push(E::Z),
             d => {
                 for b in parse_hex(&d[2..]).unwrap() {
@@ -149,7 +149,7 @@ pub fn c15(thorough: bool, rng: &mut Rng, out: &mut Out) {
         read_case(out, 2, evs, true);
     }
     // an error / zero read at every call index
-    for kind in ["e", "z"] {
+    for kind in ["e", "z", "t"] {
         for i in 0..=singles.len() {
             let mut evs = singles.clone();
             evs.insert(i, kind.into());
@@ -438,7 +438,7 @@ pub fn c16(thorough: bool, rng: &mut Rng, out: &mut Out) {
             serial_oracle(out, i, m, "", &[], true, false);
         }
         if exp {
-            for rd in ["e", "d:3A3031 e", "i i e"] {
+            for rd in ["e", "d:3A3031 e", "i i e", "t", "d:3A30 t", "i t"] {
                 let line = format!("serial {} | {} |", show_msg(m), rd);
                 let i = out.case(line, true);
                 out.stat("serial.read-failure");
@@ -623,7 +623,21 @@ pub fn c17(thorough: bool, rng: &mut Rng, out: &mut Out) {
         let k = rng.range(1, 3) as usize;
         let mut expect: Vec<Option<bool>> = vec![]; // Some(valid)
         for _ in 0..k {
-            let (line, valid): (Vec<u8>, bool) = match rng.below(6) {
+            let (line, valid): (Vec<u8>, bool) = match rng.below(9) {
+                6 => {
+                    // well-shaped line with a wrong checksum (one flipped bit in a real frame)
+                    let mut f = enc_nl(a, 3, &[0xA1]);
+                    let l = f.len();
+                    f[l - 3] = if f[l - 3] == b'0' { b'1' } else { b'0' };
+                    (f, false)
+                }
+                7 => {
+                    // well-shaped line whose length field disagrees with its data
+                    let mut f = enc_nl(a, 2, &[0x00]);
+                    f[2] = b'2';
+                    (f, false)
+                }
+                8 => (b"\r\n".to_vec(), false),
                 0 => (b":01000302XX\r\n".to_vec(), false),
                 1 => {
                     let mut f = enc_nl(a, 2, &[0xFF]);
